@@ -101,7 +101,7 @@ func (r *Report) AddExplore(res *explore.Result, bound string, wall float64) {
 		r.MachineryError = "NONDETERMINISM " + res.Name + ": " + res.Nondeterminism
 	}
 	for _, v := range res.Violations {
-		r.Viols = append(r.Viols, Viol{Property: r.Property, Harness: res.Name, Sig: res.Name + ":" + v.Sig, Msg: v.Msg, Choices: v.Choices, Trace: v.Trace})
+		r.Viols = append(r.Viols, Viol{Property: r.Property, Harness: res.Name, Sig: v.Sig + "@" + res.Name, Msg: v.Msg, Choices: v.Choices, Trace: v.Trace})
 	}
 	if len(r.Samples) < 4 {
 		for _, t := range res.SampleTraces {
